@@ -432,45 +432,72 @@ def rule_r5(prog, res) -> None:
     # (b) DataChunk.create: id-range check whenever ids are present, common length before allocation,
     #     checked conversion for every column
     res.touch(create)
-    cfg = cfg_of(create.node)
+    from .. import symx
+
     params = create.param_names()
     id_param = next((p for p in params if "patch" in p), None)
     if id_param is None:
         raise AnalysisError("C09.R5: DataChunk.create has no patch-id parameter")
     check_ids = prog.func("check_patch_ids")
-    chk_nodes = [n for n in cfg.nodes if any(check_ids in prog.resolve_call(create, c).funcs() for c in n.calls())]
-    env_present = {id_param: "SOME"}
-    reach = pruned_reach(cfg, cfg.entry, env_present, avoid=lambda n: n in chk_nodes)
-    if not chk_nodes or cfg.exit.id in reach:
-        res.violation("C09.R5", create, create.node, "DataChunk.create can return without the patch-id range check although patch ids are given", key_extra="id-range-check")
-    else:
-        res.ok("C09.R5", res.site(create, "check_patch_ids"), "every return with patch ids present passes the range check")
     cla = prog.func("common_len_assert")
-    cla_nodes = [n for n in cfg.nodes if any(cla in prog.resolve_call(create, c).funcs() for c in n.calls())]
-    alloc_nodes = [n for n in cfg.nodes if any((dotted(c.func) or "").endswith(("np.empty", "numpy.empty", "np.zeros")) for c in n.calls())]
-    if not cla_nodes or not alloc_nodes or not all(any(cfg.dominates(a, b) for a in cla_nodes) for b in alloc_nodes):
-        res.violation("C09.R5", create, create.node, "DataChunk.create allocates the chunk without a dominating common-length check of the columns", key_extra="common-len")
+    keep = {"check_patch_ids", "common_len_assert"}
+    pol = symx.inline_private_helpers(prog, public=keep)
+    paths = symx.explore(prog, create, env={id_param: "SOME", "chkfinite": True}, inline=pol)
+    rets = [p for p in paths if p.outcome != "raise"]
+    if not rets:
+        raise AnalysisError("C09.R5: DataChunk.create has no returning path with patch ids given")
+
+    def resolved(ev, target) -> bool:
+        return target in prog.resolve_call(ev.fi, ev.node).funcs()
+
+    def is_alloc(ev) -> bool:
+        return (dotted(ev.expr.func) or "").endswith(("np.empty", "numpy.empty", "np.zeros", "np.empty_like"))
+
+    unchecked = [p for p in rets if not any(resolved(ev, check_ids) and ev.expr.args and isinstance(ev.expr.args[0], ast.Name) and ev.expr.args[0].id == id_param for ev in p.calls())]
+    if unchecked:
+        res.violation("C09.R5", create, unchecked[0].node or create.node, "DataChunk.create can return without the range check of the patch ids as given (before any cast to the storage type) although patch ids are given", key_extra="id-range-check")
     else:
-        res.ok("C09.R5", res.site(create, "common_len_assert"), "length check dominates the allocation")
-    # checked conversion: the function used to convert columns is asarray_chkfinite whenever chkfinite is true
-    conv_ok = False
-    for x in walk_no_nested(create.node):
-        if isinstance(x, ast.IfExp) and "asarray_chkfinite" in unparse(x.body) and mentions_name(x.test, ["chkfinite"]) and not isinstance(x.test, ast.UnaryOp):
-            conv_ok = True
-        if isinstance(x, ast.If) and mentions_name(x.test, ["chkfinite"]) and any("asarray_chkfinite" in unparse(s) or "isfinite" in unparse(s) for s in x.body):
-            conv_ok = True
-    calls_direct = any("asarray_chkfinite" in (dotted(c.func) or "") for c in calls_in(create))
-    if conv_ok or calls_direct:
-        # every stored column goes through the selected converter
-        stores = [x for x in walk_no_nested(create.node) if isinstance(x, ast.Assign) and any(isinstance(t, ast.Subscript) and isinstance(t.value, ast.Name) for t in x.targets)]
-        loop_stores = [s for s in stores if isinstance(s.value, ast.Call) and not (dotted(s.value.func) or "").endswith("deg2rad")]
-        raw = [s for s in stores if not isinstance(s.value, ast.Call)]
-        if raw:
-            res.violation("C09.R5", create, raw[0], "a column is stored without the finite-checking conversion", key_extra="raw-store")
+        res.ok("C09.R5", res.site(create, "check_patch_ids"), f"every return with patch ids present passes the range check of the given ids ({len(rets)} paths)")
+    late = None
+    n_alloc = 0
+    for p in rets:
+        calls = p.calls()
+        for i, ev in enumerate(calls):
+            if is_alloc(ev):
+                n_alloc += 1
+                if not any(resolved(e2, cla) for e2 in calls[:i]):
+                    late = ev
+    if n_alloc == 0 or late is not None:
+        res.violation("C09.R5", create, (late.node if late else create.node), "DataChunk.create allocates the chunk without a preceding common-length check of the columns", key_extra="common-len")
+    else:
+        res.ok("C09.R5", res.site(create, "common_len_assert"), "length check precedes the allocation on every path")
+    # checked conversion: with chkfinite true every column stored into the allocated array is the result of
+    # numpy.asarray_chkfinite (or of the in-place unit conversion of such a column)
+    raw = None
+    n_stores = 0
+    for p in rets:
+        for ev in p.events:
+            if ev.kind != "store" or not isinstance(ev.expr, ast.Subscript):
+                continue
+            base = ev.expr.value
+            if not (isinstance(base, ast.Call) and (dotted(base.func) or "").endswith(("np.empty", "numpy.empty", "np.zeros", "np.empty_like"))):
+                continue
+            n_stores += 1
+            v = ev.value
+            fn = (dotted(v.func) or unparse(v.func)) if isinstance(v, ast.Call) else ""
+            if fn.endswith("asarray_chkfinite") or fn.endswith("deg2rad"):
+                continue
+            raw = ev
+    if n_stores == 0:
+        raise AnalysisError("C09.R5: no column store into the allocated array found in DataChunk.create")
+    if raw is not None:
+        what = unparse(raw.value)[:60]
+        if isinstance(raw.value, ast.Call) and (dotted(raw.value.func) or "").endswith("asarray"):
+            res.violation("C09.R5", create, raw.node, "DataChunk.create no longer selects numpy.asarray_chkfinite when chkfinite is true", key_extra="chkfinite-select")
         else:
-            res.ok("C09.R5", res.site(create, "asarray_chkfinite"), f"{len(loop_stores)} column store(s) go through the checked converter")
+            res.violation("C09.R5", create, raw.node, f"a column is stored without the finite-checking conversion ({what})", key_extra="raw-store")
     else:
-        res.violation("C09.R5", create, create.node, "DataChunk.create no longer selects numpy.asarray_chkfinite when chkfinite is true", key_extra="chkfinite-select")
+        res.ok("C09.R5", res.site(create, "asarray_chkfinite"), f"with chkfinite true all {n_stores} column store(s) go through numpy.asarray_chkfinite")
     # (c) check_patch_ids raises on both sides of the range
     res.touch(check_ids)
     c2 = cfg_of(check_ids.node)
